@@ -130,8 +130,9 @@ type inst struct {
 	// the twin: a second list of the same element type that every thread uses alternately with
 	// the first (one Push before, one Pop after each operation).  Two lists share nothing, so the
 	// twin must neither lose, duplicate nor invent a value.
-	tw  listAPI
-	twl [16]struct{ pushed, popped []int }
+	tw   listAPI
+	elem int
+	twl  [16]struct{ pushed, popped []int }
 	// the probe thread runs while the others are frozen in the middle of their operations: it
 	// keeps its hands off the twin (a frozen twin Push would make it wait for ever)
 	probe int
@@ -161,6 +162,17 @@ func (x *inst) Do(t int, op sim.Op) sim.Rec {
 	case "Len":
 		r.V = x.l.Len()
 		r.OK = true
+	case "Fresh":
+		// a list created while the others are in use: it shares nothing with them
+		f := newList(x.elem)
+		v := 0x200000 + t<<8 + op.V
+		f.Push(v)
+		n1 := f.Len()
+		got, ok := f.Pop()
+		n2 := f.Len()
+		_, again := f.Pop()
+		r.V, r.OK = got, ok && got == v && n1 == 1 && n2 == 0 && !again
+		r.Vs = []int{v, n1, n2}
 	case "Drain":
 		for i := 0; i < 1000; i++ {
 			v, ok := x.l.Pop()
@@ -196,12 +208,18 @@ func gen(r *sim.Rng, tier string) *sim.Case {
 	total := 0
 	// swarm: op mix per case
 	wPush, wPop, wLen, wWait := r.Range(1, 6), r.Range(1, 6), r.Range(0, 3), r.Range(0, 2)
+	wFresh := 0
+	if r.Pct(15) {
+		wFresh = 1 // a new list is created (and used) while the others are in use
+	}
 	zeroPushed := false
 	for t := 0; t < nT; t++ {
 		n := r.Range(1, maxOps)
 		var prog []sim.Op
 		for i := 0; i < n; i++ {
-			switch r.Pick(wPush, wPop, wLen, wWait) {
+			switch r.Pick(wPush, wPop, wLen, wWait, wFresh) {
+			case 4:
+				prog = append(prog, sim.Op{Op: "Fresh", V: i + 1})
 			case 0:
 				v := (t+1)<<8 | (i + 1)
 				if !zeroPushed && r.Pct(4) {
@@ -249,7 +267,7 @@ func gen(r *sim.Rng, tier string) *sim.Case {
 }
 
 func build(c *sim.Case) enga.Instance {
-	x := &inst{l: newList(c.P("elem")), probe: c.Sched.Probe}
+	x := &inst{l: newList(c.P("elem")), probe: c.Sched.Probe, elem: c.P("elem")}
 	if c.P("twin") == 1 {
 		x.tw = newList(c.P("elem"))
 	}
@@ -323,6 +341,10 @@ func check(run *enga.Run) *sim.Violation {
 			case "Len":
 				if r.V < 0 {
 					return &sim.Violation{Class: "len_negative", Site: "listz.(*SyncList).Len", Detail: fmt.Sprintf("Len() = %d", r.V)}
+				}
+			case "Fresh":
+				if r.Done && !r.OK {
+					return &sim.Violation{Class: "fresh_instance_disturbed", Site: "listz.NewSync", Detail: fmt.Sprintf("a list created while other lists are in use: pushed %#x, Len() = %d, Pop() = %#x, then Len() = %d (expected the value back and lengths 1 and 0)", r.Vs[0], r.Vs[1], r.V, r.Vs[2])}
 				}
 			}
 		}
@@ -484,6 +506,8 @@ func check(run *enga.Run) *sim.Violation {
 					continue
 				}
 				o.Input, o.Output = enga.QIn{Kind: enga.QLen}, enga.QOut{V: r.V}
+			case "Fresh":
+				continue // another list: not part of this list's history
 			case "Drain":
 				if !r.Done {
 					continue
